@@ -26,7 +26,12 @@ TextCells == {
   [id |-> "empty", blank |-> TRUE],
   [id |-> "blank", blank |-> TRUE],
   [id |-> "loc", blank |-> FALSE],
-  [id |-> "k", blank |-> FALSE] }
+  [id |-> "k", blank |-> FALSE],
+  [id |-> "pay", blank |-> FALSE],
+  [id |-> "nv1", blank |-> FALSE],
+  [id |-> "nv2", blank |-> FALSE],
+  [id |-> "nv3", blank |-> FALSE],
+  [id |-> "nv4", blank |-> FALSE] }
 
 AmtCells == {
   [id |-> "p1250", blank |-> FALSE, dot |-> [ok |-> TRUE, cents |-> 1250], comma |-> [ok |-> TRUE, cents |-> 1250]],
